@@ -281,3 +281,77 @@ package plugins
 //@   ensures next_exactly_once: calls(next) == 1
 //@   ensures compress_path_commits: listsGzip(r.Header.vals["Accept-Encoding"]) && !w.hijacked ==> w.committed
 //@   modifies *
+
+// ---------------------------------------------------------------------------------------------------
+// Gating and fail-closed factories (C17, C18). dynstr(v): the interface value v holds a string.
+//@ pred holdsString(v any) := dyntype(v, string)
+
+// custom-auth: the factory refuses a missing/empty/non-string apiKey (startup fails instead of running unprotected)
+//@ func init#2$1
+//@   props C17 C18
+//@   results mw, err
+//@   ensures fail_closed: err == nil <==> has(cfg, "apiKey") && holdsString(cfg["apiKey"]) && strval(cfg["apiKey"]) != ""
+//@   ensures no_handler_on_error: err != nil ==> mw == nil
+// custom-auth: a request without the exact key is answered 401 and reaches nothing behind the plugin
+//@ func init#2$1$1$1
+//@   props C17
+//@   may_panic
+//@   requires w != nil && r != nil && r.Header != nil && next != nil && !w.committed
+//@   ensures rejection_stops_the_chain: r.Header.vals["X-API-Key"] != apiKey ==> calls(next) == 0 && w.committed && w.status == 401
+//@   ensures accepted_passes_once: r.Header.vals["X-API-Key"] == apiKey ==> calls(next) == 1
+//@   modifies *
+
+// headers / logging / request-id plugins never swallow a request: next runs exactly once
+//@ func init#4$1$1$1
+//@   props C17
+//@   may_panic
+//@   requires w != nil && r != nil && r.Header != nil && next != nil
+//@   ensures next_exactly_once: calls(next) == 1
+//@   modifies *
+//@ func init#5$1$1$1
+//@   props C17
+//@   may_panic
+//@   requires w != nil && r != nil && r.URL != nil && next != nil
+//@   ensures next_exactly_once: calls(next) == 1
+//@   modifies *
+//@ func init#3$1$1$1
+//@   props C17
+//@   may_panic
+//@   requires w != nil && r != nil && r.Header != nil && next != nil
+//@   ensures next_exactly_once: calls(next) == 1
+//@   modifies *
+
+// size_limit options: every YAML numeric spelling of a positive limit is accepted, everything else refused
+//@ func parseByteLimit
+//@   props C14 C17 C18
+//@   results limit, err
+//@   ensures default_when_absent: !has(cfg, key) ==> err == nil && limit == defaultValue
+//@   ensures yaml_int_accepted: has(cfg, key) && dyntype(cfg[key], int) && intval(cfg[key]) > 0 ==> err == nil && limit == intval(cfg[key])
+//@   ensures int64_accepted: has(cfg, key) && dyntype(cfg[key], int64) && intval(cfg[key]) > 0 ==> err == nil && limit == intval(cfg[key])
+//@   ensures non_positive_refused: has(cfg, key) && (dyntype(cfg[key], int) || dyntype(cfg[key], int64)) && intval(cfg[key]) <= 0 ==> err != nil
+//@   ensures non_numeric_refused: has(cfg, key) && !dyntype(cfg[key], int) && !dyntype(cfg[key], int64) && !dyntype(cfg[key], float64) ==> err != nil
+//@   ensures accepted_is_positive: err == nil && has(cfg, key) ==> limit > 0
+//@ func newSizeLimitMiddleware
+//@   props C14 C17 C18
+//@   results mw, err
+//@   ensures invalid_option_prevents_startup: err != nil ==> mw == nil
+//@ func configInt
+//@   props C15 C18
+//@   results n, ok
+//@   ensures yaml_int_accepted: dyntype(v, int) ==> ok && n == intval(v)
+//@   ensures int64_accepted: dyntype(v, int64) ==> ok
+//@   ensures float_accepted: dyntype(v, float64) ==> ok
+//@   ensures others_refused: !dyntype(v, int) && !dyntype(v, int64) && !dyntype(v, float64) ==> !ok
+//@ func parseGzipConfig
+//@   props C15 C17 C18
+//@   results level, minSize, types, err
+//@   ensures level_in_range: err == nil ==> -1 <= level && level <= 9
+//@   ensures yaml_ints_accepted: has(cfg, "level") && dyntype(cfg["level"], int) && -1 <= intval(cfg["level"]) && intval(cfg["level"]) <= 9
+//@             && has(cfg, "min_size") && dyntype(cfg["min_size"], int) ==> (err == nil ==> level == intval(cfg["level"]) && minSize == intval(cfg["min_size"]))
+//@   ensures missing_level_refused: !has(cfg, "level") ==> err != nil
+//@ loop parseGzipConfig #0
+//@   props C15 C17 C18
+//@   invariant idx: rangeindex < len(rawTypes)
+//@   invariant separate: contentTypes.base != 0 && !preexisting(contentTypes.base)
+//@   invariant others_kept: forall x int :: {backing(x, []string)} preexisting(x) ==> backing(x, []string) == old(backing(x, []string))
+//@   decreases len(rawTypes) - rangeindex
